@@ -633,6 +633,27 @@ FromArray(a, r, p, q) ==
                    <<res>>, <<>>)
 
 
+\* utils.truncated_svd on the unfolding (first "index" modes | the rest) of an island: every unfolding of an odeco tensor
+\* has the singular values sig_k * sqrt(IslScaleSq).  threshold p/q relative to the largest singular value (rel) or the
+\* absolute threshold absT (an integer; s_k > absT  <=>  sig_k^2 * IslScaleSq > absT^2), then the rank cap r (0: numpy.inf).
+\* Returns arrays, the pool is unchanged.  Cuts inside a group of tied singular values are excluded (not determined).
+MatSvd(a, index, r, p, q, rel, absT) ==
+    /\ "MatSvd" \in Ops /\ Closed(pool[a]) /\ HasIsl(pool[a]) /\ IsVec(pool[a])
+    /\ index >= 1 /\ index <= Order(pool[a]) - 1
+    /\ (rel => absT = 0) /\ (~rel => p = 0 /\ absT > 0)
+    /\ LET o == pool[a]
+           isl == o.isl
+           K == Len(isl.sig)
+           thr == IF rel THEN (IF p = 0 THEN 1..K ELSE ThrIdx(isl.sig, p, q))
+                  ELSE {k \in 1..K : isl.sig[k] * isl.sig[k] * IslScaleSq(isl) > absT * absT}
+           keep == (IF r = 0 THEN 1..K ELSE TopIdx(isl.sig, r)) \cap thr
+       IN  /\ (rel /\ p # 0 => ~ThrTie(isl.sig, p, q))
+           /\ (~rel => \A k \in 1..K : isl.sig[k] * isl.sig[k] * IslScaleSq(isl) # absT * absT)
+           /\ (r # 0 => ~CapSplitsTie(isl.sig, r))
+           /\ (r # 0 => Cardinality(keep) = Min(r, Cardinality(thr)))
+           /\ Step([op |-> "MatSvd", a |-> a, index |-> index, maxrank |-> r, thrp |-> p, thrq |-> q, rel |-> rel, absT |-> absT,
+                    val |-> o.d, kept |-> [IslDense(isl, keep) EXCEPT !.cd = o.d.cd], svsq |-> IslSvSq(isl, keep)], <<>>, <<>>)
+
 \* ------------------------------------------------------- documented error paths
 \* A call with inadmissible arguments raises the documented exception and changes nothing: no new object,
 \* no target.  "what" names the call and the kind of inadmissibility, "exc" the documented exception type.
@@ -690,6 +711,10 @@ Next ==
                          \/ \E r \in 0..3, pq \in {<<0, 1>>, <<1, 3>>, <<3, 5>>, <<9, 10>>, <<1, 100>>} :
                                 FromArray(a, r, pq[1], pq[2])
                          \/ \E which \in {"left", "right", "both"}, r \in (IF Lean THEN {1} ELSE 1..2) : OrthoTrunc(a, which, r)
+                         \/ \E index \in 1..(MaxD - 1), r \in 0..3, pq \in {<<0, 1>>, <<1, 3>>, <<3, 5>>, <<9, 10>>} :
+                                MatSvd(a, index, r, pq[1], pq[2], TRUE, 0)
+                         \/ \E index \in 1..(MaxD - 1), r \in 0..3, absT \in {1, 20, 50, 120} :
+                                MatSvd(a, index, r, 0, 1, FALSE, absT)
                          \/ \E index \in 1..(MaxD - 1), ow \in OWs : Svd(a, index, ow) \/ Pinv(a, index, ow)
                          \/ \E index \in 1..(MaxD - 1), ow \in OWs, ol \in BOOL2, orr \in BOOL2, r \in 0..3,
                                pq \in {<<0, 1>>, <<1, 3>>, <<3, 5>>, <<9, 10>>} :
